@@ -530,7 +530,7 @@ class Gen:
                 else:
                     bind = ["_", 0]
             if stmt:
-                body = self.block_stmts(depth, r.choice([1, 1, 2]))
+                body = [] if r.random() < 0.08 else self.block_stmts(depth, r.choice([1, 1, 2]))
                 unitize(body)
                 p = t = False
             else:
@@ -640,6 +640,8 @@ class Gen:
             cond = self.head(BOOL, d, True)
             t = self.block_stmts(d - 1, r.choice([1, 2, 2, 3]))
             f = self.block_stmts(d - 1, r.choice([1, 2])) if r.random() < 0.5 else None
+            if f is not None and r.random() < 0.06:
+                f = []
             if f is not None:
                 # `check` insists that both branches of an if/else have compatible types even when the value is
                 # unused, so statement-level branches end in Unit
@@ -824,7 +826,7 @@ class Gen:
 
 
 def unitize(block):
-    """Make a statement-level block evaluate to Unit."""
+    """Make a statement-level block evaluate to Unit (an empty block already does)."""
     if block:
         last = block[-1]
         if last["k"] in ("break", "continue", "return", "let", "letd", "assign", "upd", "while", "for"):
@@ -835,6 +837,8 @@ def unitize(block):
                 return
             if e["k"] == "if" and e.get("stmt") and e.get("els") is None:
                 return
+    else:
+        return
     block.append({"k": "expr", "e": E("unit", UNIT)})
 
 
